@@ -171,7 +171,7 @@ func c03R2(c *Ctx, rule string) {
 		}
 		closedF := p.Field("internal/multiplex", impl, "closed")
 		set, bc := false, false
-		allInstrs(f, func(i ssa.Instruction) {
+		p.unitInstrs(f, func(i ssa.Instruction) {
 			if st, ok := i.(*ssa.Store); ok {
 				if fv, _ := fieldVar(st.Addr); fv == closedF {
 					if b, isB := boolConst(st.Val); isB && b {
@@ -198,7 +198,10 @@ func c03R4(c *Ctx, rule string) {
 		}
 		closedF := p.Field("internal/multiplex", cp.typ, "closed")
 		nEOF := 0
-		for _, r := range returnsOf(f) {
+		for _, r := range p.unitReturns(f) {
+			if len(r.Results) < 2 {
+				continue
+			}
 			ev := resultValue(r, 1)
 			isEOF := false
 			if ld, ok := ev.(*ssa.UnOp); ok {
@@ -232,7 +235,7 @@ func c03R4(c *Ctx, rule string) {
 			c.Bad(rule, cp.typ+".Read returns EOF", c.atFn(f), "the pipe never reports end-of-stream: readers of a closed stream block forever")
 		}
 		// no early return on closed alone: every return guarded by closed==true is also guarded by the emptiness test
-		for _, r := range returnsOf(f) {
+		for _, r := range p.unitReturns(f) {
 			closed, empty := false, false
 			for _, at := range AtomsAt(r) {
 				if at.Kind == "bool" && at.Pol {
